@@ -822,11 +822,13 @@ package core
 // succeeds on parts that are all determined, non-empty and allowed, has written the key of
 // EVERY map-key part at or after start (so forks that differ in a map key get different
 // identifiers) - in particular a map-key part that follows array parts is not skipped.
+// (the call is the event; what is verified of the body: what goes into the fork id is exactly
+// the percent-escaped key - every key is escaped, also one that already looks escaped, so the
+// escaping stays injective)
 //@ func core.writeSafeKey property C11
-//@   trusted
-//@   modifies ghost(keywritten)
-//@   ensures ghost(keywritten)[k] == old(ghost(keywritten)[k]) + 1
-//@   ensures forall x string :: x != k ==> ghost(keywritten)[x] == old(ghost(keywritten)[x])
+//@   effect keywritten k
+//@   requires buf != nil
+//@   ensures @escaped ghost(sbwrote)[buf] == fn("net/url.PathEscape", k0)
 
 //@ iface core.ForkIdPart.Mode property C11
 //@   pure
@@ -1287,3 +1289,12 @@ package core
 //@ func core.TopNode.getParts property C01
 //@   requires node != nil
 //@   loop 1 invariant forall i, j :: 0 <= i && i < j && j < len(matchingParts) && matchingParts[i] != nil && matchingParts[j] != nil ==> matchingParts[i].Id != matchingParts[j].Id
+
+// ---------------------------------------------------------------- C11 the chunk a journal entry belongs to
+// parseRunFilename: the chunk index is the DECIMAL value of the digits in the journal file name
+// (strconv.Atoi) - chunk names are zero-padded once a stage has ten or more chunks, so they
+// must not be read with a base prefix.
+//@ func core.Node.parseRunFilename property C11
+//@   let M = fn("regexp.Regexp.FindStringSubmatch", core.jobJournalRe, fqname)
+//@   ensures @decimalindex len(M) >= 6 && M[3] != "" ==> result.2 == fn(strconv.Atoi, M[3]).0
+//@   ensures @fields len(M) >= 6 ==> result.0 == M[1] && result.1 == M[2] && result.3 == M[4] && result.4 == M[5]
